@@ -79,7 +79,7 @@ RayCtx(r) ==
         hit == Hit(bx, pos, dir)
         lhit == LineHit(bx, pos, dir)
         none == <<D!DZero, D!DOne>>
-    IN  [bx |-> bx, pos |-> pos, dir |-> dir, hit |-> hit, lhit |-> lhit,
+    IN  [bx |-> bx, pos |-> pos, dir |-> dir, hit |-> hit, lhit |-> lhit, empty |-> IsEmpty(bx),
          hitIn |-> hit /\ Hit(inner, pos, dir), hitOut |-> Hit(outer, pos, dir),
          lhitIn |-> lhit /\ LineHit(inner, pos, dir), lhitOut |-> LineHit(outer, pos, dir),
          fc |-> IF hit THEN FirstContact(bx, pos, dir) ELSE none,
@@ -89,7 +89,8 @@ RayCtx(r) ==
 RayOKc(r, c) ==
     LET hitScoped == c.hitIn /\ ParOK(r.t, c.fc)
         lhitScoped == c.lhitIn /\ ParOK(r.t, c.en) /\ ParOK(r.t, c.ex)
-    IN  /\ (~c.hitOut => r.hit = 0 /\ r.hit3 = 0)
+    IN  /\ (c.empty => r.hit = 0 /\ r.hit3 = 0 /\ r.ee = 0)      \* emptiness is an exact comparison of the given corners: no margin applies
+        /\ (~c.hitOut => r.hit = 0 /\ r.hit3 = 0)
         /\ (hitScoped => r.hit = 1 /\ r.hit3 = 1)
         /\ (~c.lhitOut => r.ee = 0)
         /\ (lhitScoped => r.ee = 1)
